@@ -55,6 +55,11 @@ def verify_all(rw, acc, denom, before_dig, before_rec, case):
             views["factory lookup"] = lk["v"]
         else:
             probs.append("lookup of %s failed" % rec["addr"])
+        lr = rw.lookup(rec["assets"][1], rec["assets"][0])
+        if lr["r"] == "ok":
+            views["factory lookup (assets in reverse order)"] = lr["v"]
+        else:
+            probs.append("reverse-order lookup of %s failed" % rec["addr"])
         if key in listed:
             views["factory listing"] = listed[key]
         else:
